@@ -208,6 +208,7 @@ def _(self):
 def _(self):
     properties('C14')
     requires(self.yaml_node.kind == SEQ)
+    inline()
     result_sort('wrapseq')
     ensures(len(result) == len(self.yaml_node.items))
 
